@@ -82,6 +82,8 @@ type FuncSpec struct {
 	Trusted     string
 	Panics      []Clause
 	Decreases   Expr
+	Measure     []Clause // function-level `decreases e1, e2, ...`: lexicographic recursion variant, checked at calls between functions that both have one
+	Assumes     []Clause // `assumes label: e`: assumed at entry, NOT checked at call sites (reported as an assumption)
 	Loops       map[int]*LoopSpec
 	Nilable     map[string]bool
 	Overflow    bool
@@ -292,7 +294,7 @@ type parser struct {
 }
 
 var itemKw = map[string]bool{"frame": true, "pred": true, "spec": true, "ghost": true, "lemma": true, "iface": true, "func": true, "extern": true, "axiom": true, "package": true}
-var clauseKw = map[string]bool{"requires": true, "ensures": true, "modifies": true, "reads": true, "panics": true, "decreases": true,
+var clauseKw = map[string]bool{"requires": true, "ensures": true, "modifies": true, "reads": true, "panics": true, "decreases": true, "assumes": true,
 	"checks": true, "inline": true, "trusted": true, "loop": true, "invariant": true, "pure": true, "returns": true, "nilable": true, "params": true, "nosafety": true, "fresh": true, "ghostset": true, "bounded": true, "unknown": true, "boundedassume": true, "atcall": true, "initstate": true}
 
 func (p *parser) peek() tok { return p.toks[p.p] }
@@ -1067,12 +1069,22 @@ func parseSpecText(file, pkgPath, src string, sp *Specs) (err error) {
 						f.Nilable[p.ident()] = true
 					}
 				case "decreases":
+					a := p.p
 					e := p.parseExpr()
 					if curLoop != nil {
 						curLoop.Decreases = e
 					} else {
 						f.Decreases = e
+						f.Measure = append(f.Measure, Clause{E: e, Src: p.srcBetween(a, p.p)})
+						for p.isOp(",") {
+							p.next()
+							a = p.p
+							e = p.parseExpr()
+							f.Measure = append(f.Measure, Clause{E: e, Src: p.srcBetween(a, p.p)})
+						}
 					}
+				case "assumes":
+					f.Assumes = append(f.Assumes, p.parseClause())
 				case "loop":
 					t := p.next()
 					if t.k != "int" {
